@@ -64,7 +64,7 @@ def gen(tape):
             "delay": tape.choice("program", GRID, "delay"),
             "extras": [tape.choice("program", GRID + (8,), "extra-delay") for _ in range(tape.draw("program", 4, "n-extras"))],
             "selectables": tape.draw("program", 3, "n-selectables"),
-            "reentrant": tape.weighted("program", [(9, None), (1, "in-function"), (1, "other-spinner"), (1, "after-fire")], "reentrant"),
+            "reentrant": tape.weighted("program", [(9, None), (1, "in-function"), (1, "other-spinner"), (1, "after-fire"), (1, "twice")], "reentrant"),
             "clear_junk_before": tape.chance("program", 3, 4, "clear-junk"),
             "inner": None,
             "events": [],
@@ -120,9 +120,11 @@ def run_one(tape, opts):
             gc.enable()
     for rec in hist:
         for k in rec["fired"]:
-            out.fire("event:" + k)
-        if rec["spec"]["events"] or rec["spec"]["inner"]:
-            out.plan("external-event")
+            out.fire("event:" + k.split(":")[0])
+        for at, kind in rec["spec"]["events"]:
+            out.plan("event:" + kind.split(":")[0])
+        if rec["spec"]["inner"]:
+            out.plan("event:" + rec["spec"]["inner"])
         out.probe("result:" + rec["got_class"])
         if rec.get("tie"):
             out.probe("tie-at-completion")
@@ -186,6 +188,12 @@ def _one_call(out, r, spec, pre, sim, reactor, spinner, stop_before, junk_model,
             reactor.addReader(s)
         if spec["reentrant"] in ("in-function", "other-spinner"):
             reenter(spinner if spec["reentrant"] == "in-function" else sp.Spinner(reactor))
+        elif spec["reentrant"] == "twice":
+            reenter(spinner)
+            first = dict(inner_obs)
+            reenter(spinner)      # surviving a refusal must not open the door
+            if first.get("nested_called") or first.get("reentry") != "ReentryError":
+                inner_obs.update(first)
         if spec["inner"]:
             sim.fire(spec["inner"])
         k = spec["kind"]
